@@ -215,6 +215,13 @@ class C01(Property):
         drops = spec["droplets"]
         em = Emulsion([SphericalDroplet(np.array(d["position"], float), d["radius"]) for d in drops])
         field = em.get_phasefield(grid)
+        if len(drops) % 2 == 0:
+            # the same emulsion rendered and located first on a sibling grid (other periodicity, other spacing) must leave no trace
+            try:
+                sib = gen.build_cart(dict(spec["grid"], periodic=[not p for p in spec["grid"]["periodic"]], spacing=[1.5 * x for x in spec["grid"]["spacing"]]))[1]
+                locate_droplets(em.get_phasefield(sib))
+            except Exception:  # noqa: BLE001 - not judged
+                pass
         res = locate_droplets(field)
         aniso = float(geom.dx.max() / geom.dx.min())
         ctx.cls(f"cart{dim}d", f"per{sum(geom.periodic)}", f"n{len(drops)}")
